@@ -20,6 +20,9 @@ var zzSrcPrefixes = []string{
 	"syntax = \"proto3\";\n// detached\n\n// lead\npackage p;\n",
 	"service S { rpc M(A) returns (B); }\n",
 	"message M { oneof o { int32 a = 1; } }\n",
+	"",
+	"message M {\n  extensions 1 to 10;\n  enum E { A = 0; }\n  extend M { optional group G = 1 { optional int32 y = 1; } optional int32 z = 2; }\n  message In {}\n  reserved 20 to 30;\n  reserved \"r\";\n}\n",
+	"import \"a.proto\";\nimport public \"b.proto\";\noption java_package = \"x\";\nextend M { optional int32 e = 1 [deprecated = true]; }\n",
 }
 
 func zzSameLoc(a, b *descriptorpb.SourceCodeInfo_Location) bool {
@@ -75,6 +78,7 @@ func HarnessC23() {
 	check := func(sci *descriptorpb.SourceCodeInfo) {
 		for _, loc := range sci.Location {
 			sp := loc.Span
+			zz.Assert(zzPathOK(res.FileDescriptorProto(), loc.Path), "C23/path-names-an-existing-element")
 			zz.Assert(len(sp) == 3 || len(sp) == 4, "C23/span-has-3-or-4-numbers")
 			if len(sp) != 3 && len(sp) != 4 {
 				return
